@@ -1,35 +1,24 @@
-"""Per-property configuration of tools/check.py."""
+"""Per-property configuration of tools/check.py: one file per property in tools/props.d/Cxx.py,
+each defining CONFIG (a dict, see props.d/C18.py for the keys)."""
+import glob, importlib.util, os
 
 # Axioms a property theorem may depend on: only ones declared by the Coq standard library
-# (primitive floats / Uint63, classical reals used by Flocq, functional extensionality).
+# (primitive floats / Uint63, classical reals used by Flocq and Reals, functional extensionality).
 ALLOWED_AXIOMS = [
-    r"(Coq\.Floats\.)?FloatAxioms\.\w+", r"FloatAxioms\.\w+",
-    r"(Coq\.Numbers\.Cyclic\.Int63\.)?Uint63\.\w+", r"Uint63Axioms\.\w+", r"\w*Uint63\w*\.\w+",
+    r"(Coq\.Floats\.)?FloatAxioms\.\w+", r"Uint63Axioms\.\w+", r"(\w+\.)*Uint63\.\w+",
     r"ClassicalDedekindReals\.sig_forall_dec", r"ClassicalDedekindReals\.sig_not_dec",
     r"FunctionalExtensionality\.functional_extensionality_dep",
     r"Classical_Prop\.classic", r"Eqdep\.Eq_rect_eq\.eq_rect_eq", r"JMeq\.JMeq_eq",
-    r"ProofIrrelevance\.proof_irrelevance", r"PrimFloat\.\w+", r"Floats\.\w+",
+    r"ProofIrrelevance\.proof_irrelevance",
     r"ClassicalEpsilon\.constructive_indefinite_description",
     # primitive types / operations are listed by Print Assumptions too; they are not axioms
-    r"float", r"int", r"PrimInt63\.\w+", r"PrimFloat\.\w+", r"Uint63\.\w+",
+    r"float", r"int", r"PrimInt63\.\w+", r"PrimFloat\.\w+", r"Uint63\.\w+", r"FloatOps\.\w+",
 ]
 
 PROPS = {}
-
-PROPS["C18"] = {
-    "coq_targets": ["Props/C18.v", "Model/EventsCheck.v"],
-    "prop_files": ["Props/C18.v"],
-    "components": [{
-        "name": "events", "modules": ["Model.Events", "Model.EventsCheck"],
-        "check": "check_case", "monitor": "monitor_case", "model_out": "model_trace",
-        "ops_path": [1], "n_quick": 600, "n_thorough": 20000, "shard": 500,
-    }],
-    "rule": "op lists (subscribe with priority from a small pool incl. equal and negative ones and a reaction "
-            "queue; emit; re-register loggers) over 2-6 handlers of the four kinds, <=12 listeners per handler, "
-            "reactions perform nested emissions / mutate / cancel; generated from one splitmix64 state; "
-            "a case is non-trivial when distinct as an input term",
-    "trusted": ["sort.Sort is modelled as a stable insertion (exact for <= 12 elements, the bound the generator keeps); "
-                "the property itself constrains only ascending priority, which the theorem states"],
-    "assumptions": ["listeners do not subscribe from inside an emission (the property quantifies over emissions from "
-                    "inside listeners, not subscriptions)"],
-}
+_d = os.path.join(os.path.dirname(os.path.abspath(__file__)), "props.d")
+for _f in sorted(glob.glob(os.path.join(_d, "C*.py"))):
+    _spec = importlib.util.spec_from_file_location("propcfg_" + os.path.basename(_f)[:-3], _f)
+    _m = importlib.util.module_from_spec(_spec)
+    _spec.loader.exec_module(_m)
+    PROPS[_m.CONFIG["id"]] = _m.CONFIG
